@@ -200,3 +200,35 @@ Proof.
   - pose proof (Hcover s (pick_chosen_in_simple _ _ _ _ _ P) E) as Hs.
     unfold theta_from_q. destruct (lookup_qrule s rules) as [v|]; [reflexivity | congruence].
 Qed.
+
+(** * constant terms are projected like free ones *)
+
+Lemma project_prule_value_lemma pi rho rich pm r mle r' :
+  name_eqb (p_par r) n_mprobs || name_eqb (p_par r) n_length = false ->
+  p_mle r = Some mle -> In r' (project_prule pi rho rich pm r) ->
+  exists v, In (p_par r', v) (rate_not_same pi rho rich pm (p_par r) mle) /\
+            null_rule_value r' = Some v /\ p_edges r' = p_edges r.
+Proof.
+  intros Hn Hm Hin. unfold project_prule in Hin. rewrite Hn, Hm in Hin.
+  apply in_map_iff in Hin. destruct Hin as [[n v] [<- Hnv]]. exists v. simpl. auto.
+Qed.
+
+(** what reaches the rich rule is what the value-only model (qrule) computes *)
+Lemma project_prule_agrees_lemma pi rho rich pm r mle :
+  name_eqb (p_par r) n_mprobs || name_eqb (p_par r) n_length = false ->
+  p_mle r = Some mle ->
+  map (fun r' => (p_par r', null_rule_value r')) (project_prule pi rho rich pm r)
+  = map (fun nv => (fst nv, Some (snd nv))) (rate_not_same pi rho rich pm (p_par r) mle).
+Proof.
+  intros Hn Hm. unfold project_prule. rewrite Hn, Hm, map_map. reflexivity.
+Qed.
+
+(** the "value first" reading hands over the un-projected constant *)
+Lemma value_first_unprojected_witness :
+  let pi := fun j : Z => if j =? 1 then Q2Qc (1 # 2) else Q2Qc (1 # 4) in
+  let rich := [([1], [(0, 1)]); (ref_cell, [(1, 0)])] in
+  let pm := [([9], [[1]])] in
+  let r := mkprule [9] None true (Some (Q2Qc 2)) None in
+  map null_rule_value (project_prule pi (Q2Qc (1 # 4)) rich pm r) = [Some (Q2Qc 4)] /\
+  map null_rule_value_value_first (project_prule pi (Q2Qc (1 # 4)) rich pm r) = [Some (Q2Qc 2)].
+Proof. split; vm_compute; reflexivity. Qed.
